@@ -80,6 +80,18 @@ Theorem C06_windows_are_pairs : forall gpow x y n a K, (2 <= n)%nat -> (2 <= len
 Proof. exact windows_are_pairs. Qed.
 Print Assumptions C06_windows_are_pairs.
 
+(** ---- window computations regenerated from rfa.py (Gen/Kernels.v) = the model's window functions ---- *)
+From TW Require Import Model.RfaSpec Gen.Kernels Proofs.WindowsLink.
+(** the generic branch of get_adaptive_transition_points, as generated, is the model's adaptive_pair *)
+Theorem C06_generated_adaptive_split : forall gpow a nom denom, nom <> 0 -> denom <> 0 ->
+  let g := adaptive__gamma_smoothed gpow (adaptive__gamma (VS nom) (VS denom)) in
+  let A := VS (Qc_of_Z a) in
+  adaptive_pair gpow a nom denom =
+  (Qc_trunc (as_scalar (adaptive__a_l_clipped (adaptive__a_l g A) A)),
+   Qc_trunc (as_scalar (adaptive__a_r_clipped (adaptive__a_r A g) A))).
+Proof. exact gen_adaptive_split_ok. Qed.
+Print Assumptions C06_generated_adaptive_split.
+
 Example C06_example :
   let x := [qz 0; qz 1; qz 3; qz 4] in let y := [qz 2; qz 6; qz 1; qz 3] in
   Qc_eqb (nthq 8 (snd (rfa_linear_fixed x y 8 1 None))) (qz 2 + (qz 6 - qz 2) * qz 1 / (qz 1 + qz 2)) = true.
